@@ -153,7 +153,7 @@ PROPS["C04"] = {
 }
 
 PROPS["C05"] = {
-    "lean": ["WsVerif.Props.C05", "WsVerif.Props.C05Ext", "WsVerif.Bridge.C04"],
+    "lean": ["WsVerif.Props.C05", "WsVerif.Props.C05Ext", "WsVerif.Props.C05Discard", "WsVerif.Bridge.C04"],
     "rule": "Every valid prefix of 0..2 complete units (optionally followed by an open fragmented message, with interleaved pong) extended by "
             "every offending frame of the alphabet (reserved data/control opcode, control > 125, non-final control, RSV without extension, RSV on "
             "control, wrong masking on data and on control, new data frame while fragmented, continuation while idle, wrongly masked "
@@ -162,7 +162,7 @@ PROPS["C05"] = {
     "exhaustive_families": ["prefix shape x offending-frame alphabet x side (bounded-exhaustive)"],
     "trusted_base": READER_TB,
     "assumptions": COMMON_ASSUME + ["what a caller does with the reader after it returned an error is outside the property"],
-    "level_text": 'Kernel-checked: reject_at_first_bad - a message whose frames are valid up to some point followed by an offending frame (a framing rule broken in the state built up so far, or a length over MaxFrameSize): for every transport chunking and caller buffer schedule the Reads deliver exactly the data of the valid frames with no error, and the Read that reaches the offending frame returns the protocol error / ErrFrameTooLarge with zero bytes, the transport standing right behind the offending header (no payload byte read); first_frame_rejected for a message start; the reported rule is really broken (C03); rsv_refused_without_negotiation - an attached extension does not lift the RSV rule while State lacks StateExtended. Same scope restrictions as C04 (no extension, CheckUTF8 off, OnIntermediate unset); control frames over the limit, SkipHeaderCheck and the read helpers are decided by the oracle + correspondence.',
+    "level_text": 'Kernel-checked: reject_at_first_bad - a message whose frames are valid up to some point followed by an offending frame (a framing rule broken in the state built up so far, or a length over MaxFrameSize): for every transport chunking and caller buffer schedule the Reads deliver exactly the data of the valid frames with no error, and the Read that reaches the offending frame returns the protocol error / ErrFrameTooLarge with zero bytes, the transport standing right behind the offending header (no payload byte read); first_frame_rejected for a message start; the reported rule is really broken (C03); rsv_refused_without_negotiation - an attached extension does not lift the RSV rule while State lacks StateExtended. discard_rejects_later_bad - Discard from anywhere inside a message whose later frame breaks a rule returns that protocol error instead of skipping past it. Same scope restrictions as C04 (no extension, CheckUTF8 off, OnIntermediate unset); control frames over the limit, SkipHeaderCheck and the read helpers are decided by the oracle + correspondence.',
     "level_note": "Trusted: Lean kernel, Spec/Stream.lean, harness and oracle.",
 }
 
